@@ -965,7 +965,7 @@ func C17(c *Ctx) {
 		Profile: p, Grammars: c17Strata(), NGrammars: c.N(100, 1200),
 		FlagSets:  [][]string{{}, {"-optimize-parser"}, {"-optimize-basic-latin"}},
 		InputsPer: c.N(140, 300), ExhaustLimit: 0, Invalid: true,
-		OptSets:    []OptSet{{Name: "default"}, {Name: "allow", AllowInvalid: true}, {Name: "reader", Reader: true}, {Name: "reader-allow", Reader: true, AllowInvalid: true}},
+		OptSets:    []OptSet{{Name: "default"}, {Name: "allow", AllowInvalid: true}, {Name: "reader", Reader: true}, {Name: "reader-allow", Reader: true, AllowInvalid: true}, {Name: "debug", Debug: true}, {Name: "memoize-debug", Memo: true, Debug: true}},
 		Compare:    CmpVal | CmpEnd | CmpTrace | CmpInvalid | CmpErrs | CmpOK | CmpInput,
 		NonTrivial: func(m *ref.Result) bool { return len(m.InvalidAt) >= 1 },
 		StalePS:    "F02-stale-pred-pos",
